@@ -12,7 +12,7 @@ from .. import core, mapmodel
 PID = 'C14'
 RULE = ('Complete enumeration: for every syntax note of every segment node of every map file named by the index (own XML read), every '
         'segment length L in 0..max(mentioned position)+1 and every presence pattern of the mentioned positions <= L (2^k), a '
-        'segment is built (present = "X", absent = empty or beyond the end) and (1) pyx12.syntax.is_syntax_valid must equal the X12 '
+        'segment is built (present = "X", or data only in a later component ":X", or in two components "X:Y"; absent = empty or beyond the end) and (1) pyx12.syntax.is_syntax_valid must equal the X12 '
         'definition (P: some but not all; R: none; E: more than one; C: first and any other absent; L: first and all others absent), '
         '(2) segment_if.is_valid with a list-collecting handler must yield exactly one element error carrying that note (code 10 '
         'for E, 2 otherwise) when violated and none when satisfied; (3) for segments with several notes, every presence pattern over the '
@@ -63,11 +63,14 @@ def ref_segments(root):
     return [n for n in mapmodel.walk(root) if n.kind == 'seg']
 
 
-def check_note(pnode, seg_id, note_text, L, present, errh_cls, Segment, is_syntax_valid):
+SHAPES = ['X', ':X', 'X:Y']       # how a present element carries its data: simple, only in a later component, in two components
+
+
+def check_note(pnode, seg_id, note_text, L, present, errh_cls, Segment, is_syntax_valid, shape='X'):
     """-> list of (bucket, detail)"""
     fails = []
     kind, idx = parse_note(note_text)
-    vals = ['X' if i in present else '' for i in range(1, L + 1)]
+    vals = [shape if i in present else '' for i in range(1, L + 1)]
     seg = Segment(seg_id + ''.join('*' + v for v in vals) + '~', '~', '*', ':')
     if len(seg) != L:
         raise core.HarnessError('segment length %d != %d' % (len(seg), L))
@@ -132,11 +135,15 @@ def run_file(fname, acc, only_first_of_text=None):
                 avail = [i for i in idx if i <= L]
                 for k in range(len(avail) + 1):
                     for comb in itertools.combinations(avail, k):
-                        present = set(comb)
-                        fails = check_note(p, r.id, t, L, present, pyx12.error_handler.errh_list, pyx12.segment.Segment, is_syntax_valid)
+                      present = set(comb)
+                      for shape in (SHAPES if present else SHAPES[:1]):
+                        fails = check_note(p, r.id, t, L, present, pyx12.error_handler.errh_list, pyx12.segment.Segment, is_syntax_valid, shape)
                         acc.evaluations += 1
                         v = violated(kind, idx, present)
                         case = {'file': fname, 'path': mapmodel.path(r), 'pos': r.pos, 'note': t, 'len': L, 'present': sorted(present)}
+                        if shape != 'X':
+                            case['shape'] = shape
+                            acc.classes['shape:' + shape] += 1
                         if v or L < top:
                             acc.nontrivial.add(core.digest(case))
                         acc.classes['%s:%s' % (kind, 'violated' if v else 'satisfied')] += 1
@@ -214,7 +221,7 @@ def check_case(case):
     for p, r in zip(pyx_segments(m), ref_segments(root)):
         if mapmodel.path(r) == case['path'] and r.pos == case['pos'] and case['note'] in r.syntax:
             for b, d in check_note(p, r.id, case['note'], case['len'], set(case['present']), pyx12.error_handler.errh_list,
-                                   pyx12.segment.Segment, is_syntax_valid):
+                                   pyx12.segment.Segment, is_syntax_valid, case.get('shape', 'X')):
                 out.fail(b, d)
             break
     out.nontrivial = True
